@@ -174,31 +174,63 @@ CTORS = {'gauss_sqrtinv_quadrature_scheme': ('gauss_sqrtinv_quadrature_rule', 'g
          'gauss_log_quadrature_scheme': ('gauss_log_quadrature_rule', 'gaussLog')}
 
 
+def _key_shape(v, arg):
+    """`(arg + a) // b + c` with integer constants (each part optional except `// b`) -> (a, b, c), else None"""
+    def const(n):
+        if isinstance(n, ast.Constant) and isinstance(n.value, int) and not isinstance(n.value, bool):
+            return int(n.value)
+        return None
+    c = 0
+    if isinstance(v, ast.BinOp) and isinstance(v.op, (ast.Add, ast.Sub)) and const(v.right) is not None:
+        c = const(v.right) if isinstance(v.op, ast.Add) else -const(v.right)
+        v = v.left
+    if not (isinstance(v, ast.BinOp) and isinstance(v.op, ast.FloorDiv) and const(v.right) is not None and const(v.right) > 0):
+        return None
+    b = const(v.right)
+    u = v.left
+    a = 0
+    if isinstance(u, ast.BinOp) and isinstance(u.op, (ast.Add, ast.Sub)) and const(u.right) is not None:
+        a = const(u.right) if isinstance(u.op, ast.Add) else -const(u.right)
+        u = u.left
+    if not (isinstance(u, ast.Name) and u.id == arg):
+        return None
+    return a, b, c
+
+
 def parse_ctors(path):
-    """The degree -> key maps of the Gauss scheme constructors: `N = (N_poly + 1) // 2; rule(N)` is the only shape
-    accepted; returns {ctor: (a, b, c)} meaning key = (N_poly + a) // b and whether odd N_poly is asserted (c)."""
+    """The degree -> key maps of the Gauss scheme constructors: `N = (N_poly + a) // b + c; rule(N)` is the only shape
+    accepted; returns {ctor: (a, b, c, odd)}; odd = the constructor asserts `N_poly % 2 != 0`."""
     src = open(path).read()
     tree = ast.parse(src)
     out = {}
     for node in tree.body:
         if isinstance(node, ast.FunctionDef) and node.name in CTORS:
             arg = node.args.args[0].arg
-            asg = [s for s in node.body if isinstance(s, ast.Assign)]
-            keyvar, a, b = None, None, None
-            for st in asg:
-                v = st.value
-                if (isinstance(v, ast.BinOp) and isinstance(v.op, ast.FloorDiv) and isinstance(v.right, ast.Constant) and
-                        isinstance(v.left, ast.BinOp) and isinstance(v.left.op, ast.Add) and isinstance(v.left.left, ast.Name)
-                        and v.left.left.id == arg and isinstance(v.left.right, ast.Constant) and len(st.targets) == 1
-                        and isinstance(st.targets[0], ast.Name)):
-                    keyvar, a, b = st.targets[0].id, int(v.left.right.value), int(v.right.value)
+            keyvar, shape = None, None
+            for st in node.body:
+                if isinstance(st, ast.Expr) and isinstance(st.value, ast.Constant) and isinstance(st.value.value, str):
+                    continue                       # docstring
+                if isinstance(st, ast.Assign) and len(st.targets) == 1 and isinstance(st.targets[0], ast.Name):
+                    sh = _key_shape(st.value, arg)
+                    if sh is not None:
+                        if keyvar is not None:
+                            raise TranslationError('%s: two key computations' % node.name)
+                        keyvar, shape = st.targets[0].id, sh
             if keyvar is None:
-                raise TranslationError('%s: key computation `N = (N_poly + a) // b` not found' % node.name)
+                raise TranslationError('%s: key computation `N = (N_poly + a) // b + c` not found' % node.name)
             calls = [n for n in ast.walk(node) if isinstance(n, ast.Call) and isinstance(n.func, ast.Name) and n.func.id == CTORS[node.name][0]]
             if len(calls) != 1 or len(calls[0].args) != 1 or not (isinstance(calls[0].args[0], ast.Name) and calls[0].args[0].id == keyvar):
                 raise TranslationError('%s: the rule is not requested with the computed key' % node.name)
-            odd = any(isinstance(s, ast.Assert) for s in node.body)
-            out[node.name] = (a, b, odd)
+            asserts = [s_ for s_ in node.body if isinstance(s_, ast.Assert)]
+            odd = False
+            for s_ in asserts:
+                if ast.unparse(s_.test).replace(' ', '') in ('%s%%2!=0' % arg, '(%s%%2!=0)' % arg, '%s%%2==1' % arg):
+                    odd = True
+                else:
+                    raise TranslationError('%s: unknown assertion `%s`' % (node.name, ast.unparse(s_.test)))
+            if odd and shape[1] % 2 != 0:
+                raise TranslationError('%s: odd-degree assertion with an odd divisor is outside the fragment' % node.name)
+            out[node.name] = shape + (odd, )
     for c in CTORS:
         if c not in out:
             raise TranslationError('constructor %s not found' % c)
@@ -234,14 +266,34 @@ def emit_checks(fams, lists, ctors=None):
         agg.append('/-- every exported key has a branch -/\ntheorem available_%s :\n    %s.all (fun k => %s.any fun e => '
                    'decide (e.k1 = k.1) && decide (e.k2 = k.2)) = true := by decide +kernel' % (l, l, f))
     if ctors:
-        for cname, (a, b, odd) in ctors.items():
+        for cname, (a, b, c, odd) in ctors.items():
             fam, fl = CTORS[cname]
-            agg.append('/-- `%s`: key = (N_poly + %d) // %d -/\ndef ctorKey_%s (npoly : Int) : Int := (npoly + %d) / %d' % (cname, a, b, fl, a, b))
-            # every table key N is what the constructor computes for the odd degree 2N-1 (and, when even degrees are
-            # accepted, for 2N), and the table is exact at least to that degree
-            even = '' if odd else ' && decide (ctorKey_%s (2 * e.k1) = e.k1 || e.k1 = 0)' % fl
-            agg.append('theorem constructors_ok_%s :\n    %s.all (fun e => (decide (e.k1 ≤ 0) || decide (ctorKey_%s (2 * e.k1 - 1) = e.k1))%s && keyOK .%s e.k1 e.xs) = true := by decide +kernel'
-                       % (fl, fam, fl, even, fl))
+            # largest requested degree that is mapped to key N: d in [b(N-c)-a, b(N-c)-a+b-1]; with the odd-degree
+            # assertion (b even) the largest odd one
+            top = -a + b - 1
+            if odd and top % 2 == 0:
+                top -= 1
+            agg.append('/-- `%s` of `src/quadrature.py`: key `N = (N_poly + %d) // %d + %d`%s -/\n'
+                       'def ctorKey_%s (npoly : Int) : Int := (npoly + %d) / %d + %d\n'
+                       'def ctorOdd_%s : Bool := %s\n'
+                       '/-- the largest degree the constructor maps to key `N` -/\n'
+                       'def ctorDmax_%s (N : Int) : Int := %d * (N - %d) + %d'
+                       % (cname, a, b, c, ', asserts odd `N_poly`' if odd else '', fl, a, b, c, fl, 'true' if odd else 'false',
+                          fl, b, c, top))
+            agg.append('theorem ctorKey_%s_le (d N : Int) (%s : ctorOdd_%s = true → d %% 2 = 1) (h : ctorKey_%s d = N) :\n'
+                       '    d ≤ ctorDmax_%s N := by\n  %sunfold ctorKey_%s at h; unfold ctorDmax_%s; omega'
+                       % (fl, 'hodd' if odd else '_hodd', fl, fl, fl, 'have hd := hodd rfl; ' if odd else '', fl, fl))
+            # every degree a constructor call can have been made with, for a key that is in the table, is within the
+            # degree of exactness certified for that entry (and the key promises what `keyOK` records)
+            agg.append('theorem constructors_ok_%s :\n    %s.all (fun e => decide (ctorDmax_%s e.k1 ≤ gaussDeg e.xs) && keyOK .%s e.k1 e.xs) = true := by decide +kernel'
+                       % (fl, fam, fl, fl))
+            agg.append('/-- **requested degree ≤ certified degree of exactness**, for every request the constructor accepts -/\n'
+                       'theorem ctor_requested_ok_%s (d : Int) (e : Entry) (he : e ∈ %s)\n'
+                       '    (hodd : ctorOdd_%s = true → d %% 2 = 1) (h : ctorKey_%s d = e.k1) : d ≤ gaussDeg e.xs := by\n'
+                       '  have h1 := ctorKey_%s_le d e.k1 hodd h\n'
+                       '  have h2 := List.all_eq_true.mp constructors_ok_%s e he\n'
+                       '  simp only [Bool.and_eq_true, decide_eq_true_eq] at h2\n'
+                       '  exact Int.le_trans h1 h2.1' % (fl, fam, fl, fl, fl, fl))
     agg += ['', 'end Stbem.Rules.Gen', '']
     files['All.lean'] = '\n'.join(agg)
     return files
